@@ -114,6 +114,8 @@ func (s *publishSubjectImpl[T]) Error(err error) {
 // Implements Observer.
 func (s *publishSubjectImpl[T]) ErrorWithContext(ctx context.Context, err error) {
 	s.mu.Lock()
+	defer s.unsubscribeAll() // once the lock is released: deferred calls run in reverse order
+	defer s.mu.Unlock()      // deferred: a subscriber's teardown may panic inside the terminal notification
 
 	if s.status == KindNext {
 		s.err = lo.T2(ctx, err)
@@ -122,9 +124,6 @@ func (s *publishSubjectImpl[T]) ErrorWithContext(ctx context.Context, err error)
 	} else {
 		OnDroppedNotification(ctx, NewNotificationError[T](err))
 	}
-
-	s.mu.Unlock()
-	s.unsubscribeAll()
 }
 
 // Implements Observer.
@@ -135,6 +134,8 @@ func (s *publishSubjectImpl[T]) Complete() {
 // Implements Observer.
 func (s *publishSubjectImpl[T]) CompleteWithContext(ctx context.Context) {
 	s.mu.Lock()
+	defer s.unsubscribeAll() // once the lock is released: deferred calls run in reverse order
+	defer s.mu.Unlock()      // deferred: a subscriber's teardown may panic inside the terminal notification
 
 	if s.status == KindNext {
 		s.status = KindComplete
@@ -142,9 +143,6 @@ func (s *publishSubjectImpl[T]) CompleteWithContext(ctx context.Context) {
 	} else {
 		OnDroppedNotification(ctx, NewNotificationComplete[T]())
 	}
-
-	s.mu.Unlock()
-	s.unsubscribeAll()
 }
 
 func (s *publishSubjectImpl[T]) HasObserver() (has bool) {
